@@ -10,84 +10,13 @@ pub mod std {
     pub mod sync {
         pub use ::std::sync::*;
 
-        pub use ::shuttle::sync::{Barrier, Once};
-
-        use crate::rt;
-        use ::std::mem::ManuallyDrop;
-        use ::std::ops::{Deref, DerefMut};
-
-        /// shuttle's Mutex, except that a guard dropped while the simulated
-        /// process is being torn down (the scheduler stopped the run and the
-        /// engine unwinds the suspended tasks) is leaked instead of released:
-        /// releasing is a scheduling point, and there is nothing left to schedule.
-        pub struct Mutex<T: ?Sized>(::shuttle::sync::Mutex<T>);
-
-        pub struct MutexGuard<'a, T: ?Sized>(ManuallyDrop<::shuttle::sync::MutexGuard<'a, T>>);
-
-        impl<T> Mutex<T> {
-            pub fn new(t: T) -> Self {
-                Mutex(::shuttle::sync::Mutex::new(t))
-            }
-            pub fn into_inner(self) -> LockResult<T> {
-                self.0.into_inner()
-            }
-        }
-
-        impl<T: ?Sized> Mutex<T> {
-            pub fn lock(&self) -> LockResult<MutexGuard<'_, T>> {
-                match self.0.lock() {
-                    Ok(g) => Ok(MutexGuard(ManuallyDrop::new(g))),
-                    Err(p) => Err(PoisonError::new(MutexGuard(ManuallyDrop::new(p.into_inner())))),
-                }
-            }
-            pub fn try_lock(&self) -> TryLockResult<MutexGuard<'_, T>> {
-                match self.0.try_lock() {
-                    Ok(g) => Ok(MutexGuard(ManuallyDrop::new(g))),
-                    Err(TryLockError::WouldBlock) => Err(TryLockError::WouldBlock),
-                    Err(TryLockError::Poisoned(p)) => {
-                        Err(TryLockError::Poisoned(PoisonError::new(MutexGuard(ManuallyDrop::new(p.into_inner())))))
-                    }
-                }
-            }
-            pub fn get_mut(&mut self) -> LockResult<&mut T> {
-                self.0.get_mut()
-            }
-        }
-
-        impl<T: Default> Default for Mutex<T> {
-            fn default() -> Self {
-                Mutex::new(T::default())
-            }
-        }
-
-        impl<T: ?Sized> ::std::fmt::Debug for Mutex<T> {
-            fn fmt(&self, f: &mut ::std::fmt::Formatter<'_>) -> ::std::fmt::Result {
-                f.write_str("Mutex { .. }")
-            }
-        }
-
-        impl<T: ?Sized> Deref for MutexGuard<'_, T> {
-            type Target = T;
-            fn deref(&self) -> &T {
-                &self.0
-            }
-        }
-
-        impl<T: ?Sized> DerefMut for MutexGuard<'_, T> {
-            fn deref_mut(&mut self) -> &mut T {
-                &mut self.0
-            }
-        }
-
-        impl<T: ?Sized> Drop for MutexGuard<'_, T> {
-            fn drop(&mut self) {
-                let stopping = rt::try_with(|st| st.stop.is_some()).unwrap_or(false);
-                if !stopping {
-                    // SAFETY: dropped exactly once, here
-                    unsafe { ManuallyDrop::drop(&mut self.0) }
-                }
-            }
-        }
+        // Everything that blocks or synchronises is the engine's model. (A stopped simulated
+        // process is torn down without running destructors - see sched.rs - so the plain
+        // guards are safe.)
+        pub use ::shuttle::sync::{
+            Barrier, BarrierWaitResult, Condvar, Mutex, MutexGuard, Once, OnceState, RwLock, RwLockReadGuard,
+            RwLockWriteGuard, WaitTimeoutResult,
+        };
 
         pub mod mpsc {
             pub use ::shuttle::sync::mpsc::*;
@@ -151,6 +80,9 @@ pub mod std {
 
     pub mod thread {
         pub use ::std::thread::*;
+
+        // parking, scoped threads and thread handles are the engine's as well
+        pub use ::shuttle::thread::{current, park, park_timeout, scope, Scope, ScopedJoinHandle, Thread, ThreadId};
 
         use crate::rt::{self, Kind, ThreadRec};
         use ::std::panic::{catch_unwind, resume_unwind, AssertUnwindSafe};
@@ -231,6 +163,9 @@ pub mod std {
                     Ok(r) => r,
                     Err(e) => Err(e),
                 }
+            }
+            pub fn thread(&self) -> &Thread {
+                self.0.thread()
             }
         }
 
